@@ -143,10 +143,49 @@ fn gen_near(r: &mut Rng, t: &Ty, v: &Val) -> Val {
 }
 
 fn model_decl(name: &str, derives: &str, fts: &[(String, Ty)], is_class: bool) -> String {
+    model_decl_d(name, derives, fts, &vec![None; fts.len()], is_class)
+}
+
+/// Literal source of a default value (only simple field types get defaults).
+fn default_lit(v: &Val) -> String {
+    match v {
+        Val::Int(n) => if *n < 0 { format!("-{}", -n) } else { n.to_string() },
+        Val::Bool(b) => if *b { "True".into() } else { "False".into() },
+        Val::Str(s) => str_lit(s),
+        Val::Float(f) => format!("{f:?}"),
+        _ => "None".into(),
+    }
+}
+
+/// Defaults for a third of the simple-typed fields (anywhere in the declaration, also before required fields).
+fn gen_defaults(r: &mut Rng, fts: &[(String, Ty)]) -> Vec<Option<Val>> {
+    fts.iter().map(|(_, t)| match t {
+        Ty::Int | Ty::Bool | Ty::Str => if r.chance(1, 3) { Some(gen_val(r, t)) } else { None },
+        _ => None,
+    }).map(|d| match d { Some(Val::Int(n)) if n.abs() > 1_000_000_000_000 => Some(Val::Int(7)), other => other }).collect()
+}
+
+/// Constructor call for the top-level struct that leaves out the fields listed in `omit` (they have defaults).
+fn ctor_src(v: &Val, t: &Ty, omit: &[bool], pre: &mut Vec<String>, ctr: &mut u32) -> String {
+    match (v, t) {
+        (Val::Struct(fs), Ty::Struct(name, fts)) => {
+            let args: Vec<String> = fs.iter().zip(fts.iter()).enumerate().filter(|(i, _)| !omit[*i]).map(|(_, ((k, x), (_, ft)))| format!("{k}={}", val_src(x, ft, pre, ctr))).collect();
+            format!("{name}({})", args.join(", "))
+        }
+        _ => val_src(v, t, pre, ctr),
+    }
+}
+
+fn model_decl_d(name: &str, derives: &str, fts: &[(String, Ty)], defaults: &[Option<Val>], is_class: bool) -> String {
     let mut s = String::new();
     if !derives.is_empty() { s.push_str(&format!("@derive({derives})\n")); }
     s.push_str(&format!("{} {name}:\n", if is_class { "class" } else { "model" }));
-    for (k, t) in fts { s.push_str(&format!("    {k}: {}\n", ty_src(t))); }
+    for ((k, t), d) in fts.iter().zip(defaults.iter()) {
+        match d {
+            Some(v) => s.push_str(&format!("    {k}: {} = {}\n", ty_src(t), default_lit(v))),
+            None => s.push_str(&format!("    {k}: {}\n", ty_src(t))),
+        }
+    }
     if is_class { s.push_str("\n    def tag(self) -> int:\n        return 1\n"); }
     s.push('\n');
     s
@@ -228,13 +267,17 @@ pub fn run(out: &mut Out, tier: &str, seed: u64, _scratch: &str) {
         let is_class = i % 5 == 4;
         let mut src = format!("{MK}{}", inner_decl(&format!("Serialize, Deserialize, {eqd}")));
         let splits = if i % 4 == 3 { gen_splits(&mut rng, fts.len()) } else { None };
+        // field defaults (also before required fields); the constructor call leaves half of the defaulted fields out
+        let defaults = if splits.is_none() { gen_defaults(&mut rng, fts) } else { vec![None; fts.len()] };
+        let omit: Vec<bool> = defaults.iter().map(|d| d.is_some() && rng.chance(1, 2)).collect();
+        let v = match v { Val::Struct(fs) => Val::Struct(fs.into_iter().enumerate().map(|(i, (k, x))| if omit[i] { (k, defaults[i].clone().unwrap()) } else { (k, x) }).collect()), other => other };
         match &splits {
             Some(sp) => src.push_str(&chain_decl(&format!("Serialize, Deserialize, {eqd}"), fts, sp)),
-            None => src.push_str(&model_decl("M", &format!("Serialize, Deserialize, {eqd}"), fts, is_class)),
+            None => src.push_str(&model_decl_d("M", &format!("Serialize, Deserialize, {eqd}"), fts, &defaults, is_class)),
         }
         let mut pre = Vec::new();
         let mut ctr = 0;
-        let vs = val_src(&v, &t, &mut pre, &mut ctr);
+        let vs = ctor_src(&v, &t, &omit, &mut pre, &mut ctr);
         src.push_str("def main() -> None:\n");
         for p in &pre { src.push_str(&format!("    {p}\n")); }
         src.push_str(&format!("    v = {vs}\n    j = json_stringify(v)\n    println(j)\n    match M.from_json(j):\n        Ok(w) => println(f\"{{w == v}}\")\n        Err(e) => println(e)\n"));
@@ -250,13 +293,16 @@ pub fn run(out: &mut Out, tier: &str, seed: u64, _scratch: &str) {
         let derives = ["Ord", "Eq, Ord", "PartialOrd, Ord", "Eq, PartialEq, PartialOrd, Ord"][i % 4];
         let mut src = format!("{MK}{}", inner_decl(derives));
         let splits = if i % 3 == 2 { gen_splits(&mut rng, fts.len()) } else { None };
+        let defaults = if splits.is_none() { gen_defaults(&mut rng, fts) } else { vec![None; fts.len()] };
+        let omit: Vec<bool> = defaults.iter().map(|d| d.is_some() && rng.chance(1, 2)).collect();
+        let v = match v { Val::Struct(fs) => Val::Struct(fs.into_iter().enumerate().map(|(i, (k, x))| if omit[i] { (k, defaults[i].clone().unwrap()) } else { (k, x) }).collect()), other => other };
         match &splits {
             Some(sp) => src.push_str(&chain_decl(derives, fts, sp)),
-            None => src.push_str(&model_decl("M", derives, fts, false)),
+            None => src.push_str(&model_decl_d("M", derives, fts, &defaults, false)),
         }
         let mut pre = Vec::new();
         let mut ctr = 0;
-        let vs = val_src(&v, &t, &mut pre, &mut ctr);
+        let vs = ctor_src(&v, &t, &omit, &mut pre, &mut ctr);
         let ws = val_src(&w, &t, &mut pre, &mut ctr);
         src.push_str("def main() -> None:\n");
         for p in &pre { src.push_str(&format!("    {p}\n")); }
@@ -297,6 +343,31 @@ pub fn run(out: &mut Out, tier: &str, seed: u64, _scratch: &str) {
         for p in &pre { src.push_str(&format!("    {p}\n")); }
         src.push_str(&format!("    mut a = {vs}\n    snapshot = {ss}\n    c = a.clone()\n    before = c == a\n    a.n = a.n + 1\n    a.xs.append(99)\n    println(f\"{{before}} {{c == snapshot}} {{a == c}}\")\n"));
         reqs.push(format!("c20 clone {} {}", e_ty(&t), e_val(&v)));
+        cases.push(Case { name: String::new(), source: src });
+    }
+    // every field defaulted, `@derive(Default)`, constructed without arguments: the declared defaults are the value
+    let n_alld = if tier == "thorough" { 40 } else { 8 };
+    for i in 0..n_alld {
+        let n = 1 + rng.below(4) as usize;
+        let mut names: Vec<&str> = NAMES.to_vec();
+        let mut fts: Vec<(String, Ty)> = Vec::new();
+        let mut dvals: Vec<Option<Val>> = Vec::new();
+        for _ in 0..n {
+            let name = names.remove(rng.below(names.len() as u64) as usize);
+            let t = *rng.pick(&[0u8, 1, 2]);
+            let ty = match t { 0 => Ty::Int, 1 => Ty::Bool, _ => Ty::Str };
+            // defaults that differ from Rust's Default::default() values
+            let v = match ty { Ty::Int => Val::Int(*rng.pick(&[14i64, -3, 8080])), Ty::Bool => Val::Bool(true), _ => Val::Str(rng.pick(&["dark", "x y", "é"]).to_string()) };
+            fts.push((name.to_string(), ty));
+            dvals.push(Some(v));
+        }
+        let t = Ty::Struct("M".into(), fts.clone());
+        let v = Val::Struct(fts.iter().zip(dvals.iter()).map(|((k, _), d)| (k.clone(), d.clone().unwrap())).collect());
+        let is_class = i % 2 == 1;
+        let mut src = String::from(MK);
+        src.push_str(&model_decl_d("M", "Default, Serialize, Deserialize, Eq", &fts, &dvals, is_class));
+        src.push_str("def main() -> None:\n    v = M()\n    j = json_stringify(v)\n    println(j)\n    match M.from_json(j):\n        Ok(w) => println(f\"{w == v}\")\n        Err(e) => println(e)\n");
+        reqs.push(format!("c20 json {} {}", e_ty(&t), e_val(&v)));
         cases.push(Case { name: String::new(), source: src });
     }
     let outs = runner::run_batch("/verif/.build/batch/c20", "/verif/.build/batch-target", &cases);
